@@ -2915,7 +2915,11 @@ class Builder(object):
                 if connective in ['at']:
                     # parse period direct or indirect
                     try:  #parse direct
-                        period = max(0.0, Convert2Num(tokens[index]))  # period is number
+                        period = Convert2Num(tokens[index])  # period is number
+                        if isinstance(period, complex):  # period has to be real
+                            msg = "Error building %s. Bad period got %s." % (command, period)
+                            raise excepting.ParseError(msg, tokens, index)
+                        period = max(0.0, period)
                         index += 1  # eat token
 
                     except ValueError:  # parse indirect
